@@ -17,9 +17,7 @@ from . import _common
 from . import blockciphers as _bc
 
 AREA = 'modes'
-MODULES = ['_raw_aes', '_raw_aesni', '_raw_des', '_raw_des3', '_raw_blowfish', '_raw_cast', '_raw_arc2', '_raw_ecb', '_raw_cbc', '_raw_cfb',
-           '_raw_ofb', '_raw_ctr', '_raw_ocb', '_ghash_portable', '_ghash_clmul', '_poly1305', '_chacha20', '_Salsa20', '_ARC4', '_cpuid_c', '_strxor',
-           '_BLAKE2s', '_SHA256']
+MODULES = None      # rebuild every extension module of setup.py (about 3 s): nothing stale can be reached indirectly
 
 
 def notes():
@@ -737,8 +735,8 @@ def t_buf(rec, rnd, tier):
             for n in lens:
                 for inp in INPS:
                     for out in OUTS:
-                        if c.get('flush') and out != 'none':
-                            continue
+                        if (c.get('flush') or c['mode'] == 'OPENPGP') and out != 'none':
+                            continue          # OCB and OpenPGP offer no output= parameter
                         rec.case(cid, 'buf', name=name, n=n, what=what, inp=inp, out=out, aadlen=11 if c.get('aead') else 0)
                 for kt in ('bytearray', 'memoryview', 'mv_off3'):
                     rec.case(cid, 'buf', name=name, n=n, what=what, inp='bytes', out='none', aadlen=11 if c.get('aead') else 0, keytype=kt)
